@@ -33,7 +33,21 @@ inline Mat ok_eigen_fill_loop(size_t n) {
   }
   return ret;
 }
+// accepted: member sized in the initialiser list and zeroed first thing in the constructor body
+struct OkEigenMember {
+  Mat _m;
+  explicit OkEigenMember(size_t n) : _m(n, n) { _m.setZero(); }
+};
+// flagged: member sized only
+struct CtlEigenMember {
+  Mat _m;
+  explicit CtlEigenMember(size_t n) : _m(n, n) {}
+};
 inline void instantiate_eigen() {
+  OkEigenMember okm(3);
+  CtlEigenMember ctm(3);
+  (void)okm;
+  (void)ctm;
   (void)ctl_eigen_uninit(3);
   (void)ok_eigen_setzero(3);
   (void)ok_eigen_fill_loop(3);
